@@ -157,7 +157,12 @@ impl Framer {
                 } else {
                     // keep reading
                     msg.push(data);
-                    self.state()
+                    if msg.len() >= Self::MAX_BURST_LENGTH {
+                        // maximum data burst length reached
+                        self.end()
+                    } else {
+                        self.state()
+                    }
                 }
             }
         }
@@ -199,6 +204,10 @@ impl Framer {
     // once started, search a total of 21 bytes for
     // a valid data start prefix (16 bytes preamble + 4 bytes prefix + 1 byte margin)
     const PREFIX_SEARCH_LEN: u32 = 21;
+
+    // maximum length of a data burst: the maximum SAME frame
+    // length, less the 16 preamble bytes which are not recorded
+    const MAX_BURST_LENGTH: usize = assembler::MAX_MESSAGE_LENGTH - 16;
 }
 
 // Framer state
